@@ -444,8 +444,235 @@ fn o_batch(c: &Batch, st: &mut Stats) -> Result<(), String> {
     Ok(())
 }
 
+/// A *dense family*: every string of up to `max_len` characters over a tiny alphabet, put into one
+/// field of an otherwise fixed PURL. Ordering mistakes show on short strings over small alphabets
+/// (digits next to letters, a prefix next to its extensions), and only a family that contains all of
+/// them has the triples on which a comparison that is fine pair by pair stops being transitive.
+#[derive(Clone, Debug, Serialize, Deserialize)]
+pub struct Family {
+    pub alphabet: Vec<char>,
+    pub max_len: u8,
+    /// 0 version, 1 name, 2 namespace, 3 subpath, 4 qualifier value, 5 second namespace segment
+    pub field: u8,
+    /// text put before every member (so that the family sits at the end of a longer field)
+    pub prefix: String,
+}
+
+fn family_members(c: &Family) -> Vec<String> {
+    let mut out = vec![String::new()];
+    let mut layer = vec![String::new()];
+    for _ in 0..c.max_len {
+        let mut next = Vec::new();
+        for s in &layer {
+            for ch in &c.alphabet {
+                let mut t = s.clone();
+                t.push(*ch);
+                next.push(t);
+            }
+        }
+        out.extend(next.iter().cloned());
+        layer = next;
+    }
+    out.into_iter().map(|s| format!("{}{s}", c.prefix)).collect()
+}
+
+fn judge_family<I: Inst>(c: &Family, st: &mut Stats) -> Result<(), String> {
+    let mut vals: Vec<(GenericPurl<I::T>, String)> = Vec::new();
+    for m in family_members(c) {
+        let mut f = Fields {
+            ty: if I::TYPED { "npm".into() } else { "t".into() },
+            typed: I::TYPED,
+            ns: "g".into(),
+            name: "n".into(),
+            version: "1".into(),
+            quals: vec![("k".into(), "v".into())],
+            subpath: "s".into(),
+        };
+        match c.field % 6 {
+            0 => f.version = m,
+            1 => f.name = m,
+            2 => f.ns = m,
+            3 => f.subpath = m,
+            4 => f.quals[0].1 = m,
+            _ => f.ns = format!("g/{m}"),
+        }
+        if let Some(p) = build_fields::<I>(&f)? {
+            let s = text(&p).map_err(|m| format!("to_string panicked: {m}"))?;
+            vals.push((p, s));
+        }
+    }
+    // sort by the implementation's own order (a comparison that is not a total order may make the
+    // sort panic: that is a finding as well), then look at every pair of the sorted sequence
+    let sorted = crate::engine::guard(|| {
+        let mut v: Vec<usize> = (0..vals.len()).collect();
+        v.sort_by(|a, b| vals[*a].0.cmp(&vals[*b].0));
+        v
+    })
+    .map_err(|m| format!("[{}] sorting {} values of a dense family panicked ({m}): the ordering is not a total order", I::NAME, vals.len()))?;
+    for (i, a) in sorted.iter().enumerate() {
+        for b in &sorted[i + 1..] {
+            let (pa, sa) = &vals[*a];
+            let (pb, sb) = &vals[*b];
+            let c = pa.cmp(pb);
+            if c == Ordering::Greater {
+                return Err(format!("[{}] ordering is not transitive: after sorting a family, {sa:?} stands before {sb:?} but compares as Greater", I::NAME));
+            }
+            if (c == Ordering::Equal) != (sa == sb) || (pa == pb) != (sa == sb) {
+                return Err(format!("[{}] {sa:?} and {sb:?}: cmp {c:?}, == {}", I::NAME, pa == pb));
+            }
+            if pb.cmp(pa) != c.reverse() {
+                return Err(format!("[{}] cmp is not antisymmetric for {sa:?} / {sb:?}", I::NAME));
+            }
+        }
+    }
+    let distinct: HashSet<&str> = vals.iter().map(|(_, s)| s.as_str()).collect();
+    let hs: HashSet<&GenericPurl<I::T>> = vals.iter().map(|(p, _)| p).collect();
+    let bs: BTreeSet<&GenericPurl<I::T>> = vals.iter().map(|(p, _)| p).collect();
+    if hs.len() != distinct.len() || bs.len() != distinct.len() {
+        return Err(format!("[{}] a family of {} values has {} distinct strings, {} distinct values by hash set, {} by ordered set", I::NAME, vals.len(), distinct.len(), hs.len(), bs.len()));
+    }
+    st.class_if(vals.len() >= 20, "family of 20 or more values");
+    st.class_if(c.alphabet.iter().any(|c| c.is_ascii_digit()) && c.alphabet.iter().any(|c| !c.is_ascii_digit()), "digits and non-digits");
+    if distinct.len() >= 3 {
+        st.nontrivial(&(I::NAME, &c.alphabet, c.max_len, c.field, &c.prefix), || json!({ "inst": I::NAME, "alphabet": c.alphabet, "max_len": c.max_len, "field": c.field, "prefix": c.prefix, "values": vals.len() }));
+    }
+    Ok(())
+}
+
+fn o_family(c: &Family, st: &mut Stats) -> Result<(), String> {
+    let n: u64 = (0..=c.max_len as u32).map(|l| (c.alphabet.len() as u64).pow(l)).sum();
+    if c.alphabet.is_empty() || n > 2_000 {
+        return Err("bad replay case: family size".into());
+    }
+    judge_family::<IStr>(c, st)?;
+    judge_family::<ISmall>(c, st)?;
+    judge_family::<ITyped>(c, st)
+}
+
+fn gfamily() -> BoxedStrategy<Family> {
+    let pool = prop_oneof![
+        4 => proptest::sample::select(&['0', '1', '2', '9'][..]),
+        3 => proptest::sample::select(&['a', 'b', 'x', 'A', 'Z'][..]),
+        3 => proptest::sample::select(&['.', '-', '_', '+', '~', ' ', '/', ':', '@', '%', '&', '=', '#', '?'][..]),
+        2 => gchar(),
+    ];
+    (
+        proptest::collection::vec(pool, 2..=5),
+        any::<u8>(),
+        prop_oneof![3 => Just(String::new()), 1 => proptest::sample::select(&["1.", "v", "1", "10", "a-"][..]).prop_map(str::to_string), 1 => crate::chars::gtext(0)],
+    )
+        .prop_map(|(mut alphabet, field, prefix)| {
+            alphabet.sort();
+            alphabet.dedup();
+            // as long as the family stays below ~400 members
+            let max_len = match alphabet.len() {
+                0..=2 => 6,
+                3 => 5,
+                4 => 4,
+                _ => 3,
+            };
+            Family { alphabet, max_len, field, prefix }
+        })
+        .boxed()
+}
+
+/// A value whose qualifier collection has a *past*: the builder's public `parts.qualifiers` is put
+/// through a generated sequence of collection operations (C11's language: entry API, removals,
+/// retain, indexing, typed accessors ...) before `build()`. It is compared with the value parsed from
+/// its own canonical string and with a value built afresh from its accessors: three ways of making
+/// one PURL, which must be equal, hash alike and compare as Equal.
+#[derive(Clone, Debug, Serialize, Deserialize)]
+pub struct PastCase {
+    pub q: crate::props::c11::QCase,
+    pub ty: String,
+    pub name: String,
+    pub version: String,
+}
+
+fn judge_past<I: ParseInst>(c: &PastCase, st: &mut Stats) -> Result<(), String> {
+    let Some(ty) = I::make_type(&c.ty) else { return Ok(()) };
+    let made = crate::engine::guard(|| {
+        let mut b = purl::GenericPurlBuilder::new(ty.clone(), c.name.as_str()).with_version(c.version.as_str());
+        crate::props::c11::drive(&mut b.parts.qualifiers, &c.q);
+        b.build()
+    });
+    // a panic or a refusal: no value to compare (C06 / C11 / C14 judge those)
+    let Ok(Ok(a)) = made else {
+        st.class("no value (panicked or refused)");
+        return Ok(());
+    };
+    let s = text(&a).map_err(|m| format!("to_string panicked: {m}"))?;
+    let mut vals = vec![a.clone()];
+    if let Ok(Ok(p)) = parse::<I>(&s) {
+        // only a parse that prints the same string is "the same PURL made another way" (C01 judges the rest)
+        if text(&p).ok().as_deref() == Some(s.as_str()) {
+            vals.push(p);
+        }
+    }
+    let again = crate::engine::guard(|| {
+        let mut b = purl::GenericPurlBuilder::new(a.package_type().clone(), a.name());
+        if let Some(v) = a.version() {
+            b = b.with_version(v);
+        }
+        for (k, v) in a.qualifiers().iter().rev() {
+            b = b.with_qualifier(k.as_str(), v)?;
+        }
+        b.build()
+    });
+    if let Ok(Ok(p)) = again {
+        if text(&p).ok().as_deref() == Some(s.as_str()) {
+            vals.push(p);
+        }
+    }
+    for i in 0..vals.len() {
+        for j in i + 1..vals.len() {
+            let same = laws(&vals[i], &vals[j], I::NAME).map_err(|m| format!("{m} (one of them built after the qualifier operations {:?})", c.q.ops))?;
+            if !same {
+                return Err(format!("[{}] harness error: strings were compared equal before", I::NAME));
+            }
+        }
+    }
+    transitive(&vals, I::NAME)?;
+    st.class_if(vals.len() == 3, "three ways of making one value");
+    st.class_if(!a.qualifiers().is_empty(), "value with qualifiers");
+    if vals.len() >= 2 && !c.q.ops.is_empty() {
+        st.nontrivial(&(I::NAME, s.as_str(), &c.q.ops), || json!({ "inst": I::NAME, "string": s, "operations": c.q.ops.len(), "ways": vals.len() }));
+    }
+    Ok(())
+}
+
+fn o_past(c: &PastCase, st: &mut Stats) -> Result<(), String> {
+    judge_past::<IStr>(c, st)?;
+    judge_past::<ISmall>(c, st)?;
+    if crate::api::known_type_index(&c.ty).is_some() {
+        st.class("typed");
+        judge_past::<ITyped>(c, st)?;
+    }
+    Ok(())
+}
+
 pub fn sections() -> Vec<Box<dyn Section>> {
     vec![
+        Box::new(Random {
+            name: "qualifier-collections-with-a-past".into(),
+            quick: 60_000,
+            thorough: 2_000_000,
+            strategy: Box::new(|_| {
+                (crate::props::c11::gcase_for_c06(), proptest::sample::select(&["t", "npm", "pypi", "golang"][..]), crate::chars::gtext1(), crate::chars::gtext(0))
+                    .prop_map(|(q, ty, name, version)| PastCase { q, ty: ty.to_string(), name, version })
+                    .boxed()
+            }),
+            oracle: o_past,
+            required: vec!["three ways of making one value", "value with qualifiers", "typed"],
+        }),
+        Box::new(Random {
+            name: "dense-families-in-one-field".into(),
+            quick: 1_500,
+            thorough: 60_000,
+            strategy: Box::new(|_| gfamily()),
+            oracle: o_family,
+            required: vec!["family of 20 or more values", "digits and non-digits"],
+        }),
         Box::new(Random {
             name: "near-collision-pairs-and-triples".into(),
             quick: 80_000,
@@ -499,7 +726,11 @@ pub fn prop() -> Prop {
                fields; one character changed or case-flipped; a '/' moved between namespace and name; an '@' between name \
                and version; two qualifiers merged into one value with '&' and '='; '#subpath' moved into a value; \
                '?qualifiers' moved into the name; absent vs insignificant namespace / subpath / empty qualifier; a field \
-               dropped), plus parser-made values from a generated spelling and from the printed strings. Oracle: a == b \
+               dropped), plus parser-made values from a generated spelling and from the printed strings, plus values whose \
+               qualifier collection went through a generated sequence of collection operations before build(), compared \
+               with the value parsed from their own string and with one built afresh from their accessors, plus dense \
+               families (every string of up to 3-6 characters over a generated alphabet of 2-5 characters in one field): \
+               sorted by cmp, every pair of the sorted sequence must still compare as Less/Equal. Oracle: a == b \
                iff strings equal; equal => equal hashes; cmp Equal iff ==; antisymmetry; partial_cmp == Some(cmp); \
                transitivity on the triples; for batches of 20-120 values |HashSet| == |BTreeSet| == |set of strings|. \
                Every pair is a near-collision by construction; non-trivial/distinct = distinct ordered pairs of strings.",
